@@ -74,8 +74,9 @@ def can_continue(r):
 
 
 class CaseSpec:
-    def __init__(self, clauses, else_marker, greedy, tail=False):
+    def __init__(self, clauses, else_marker, greedy, tail=False, tail_of=None):
         self.tail = tail              # clause bodies end with the match "!" (markers are then scheduled on the way out)
+        self.tail_of = tail_of or {}  # per marker, when the clauses differ (action-only clauses next to clauses with a body)
         self.clauses = clauses        # list of (terms, marker, prio)
         self.else_marker = else_marker
         self.greedy = greedy
@@ -113,20 +114,19 @@ class CaseSpec:
         nd = tuple(RX.deriv(d, b) if d != RX.EMPTY else RX.EMPTY for d in ds)
         if any(d != RX.EMPTY for d in nd):
             # consume; run the clause at once when it is complete and nothing can continue
-            if not any(can_continue(d) for d in nd) and not self.tail:
+            if not any(can_continue(d) for d in nd):
                 w = self.winner(nd)
-                if w is not None and not isinstance(w, tuple):
+                if w is not None and not isinstance(w, tuple) and not self.tail_of.get(w, self.tail):
                     return ([self.marker_event(w)], "consumed", ("semi",))
             return ([], "consumed", ("case", nd))
         w = self.winner(ds)
         if isinstance(w, tuple):
             return ([], "ambiguous", None)
-        after = ("bang",) if self.tail else ("semi",)
         if w is not None:
-            ev, kind, R2 = self.step(after, b)
+            ev, kind, R2 = self.step(("bang",) if self.tail_of.get(w, self.tail) else ("semi",), b)
             return ([self.marker_event(w)] + ev, kind, R2)
         if self.else_marker is not None:
-            ev, kind, R2 = self.step(after, b)
+            ev, kind, R2 = self.step(("bang",) if self.tail_of.get(self.else_marker, self.tail) else ("semi",), b)
             return ([self.marker_event(self.else_marker)] + ev, kind, R2)
         return ([], "fail", None)
 
@@ -138,6 +138,7 @@ def spec_from_source(nmfu, src):
     cs = pd.children[0]
     greedy = cs.data == "greedy_case_stmt"
     clauses = []
+    tail_of = {}
     else_marker = None
     tails = []
 
@@ -165,6 +166,7 @@ def spec_from_source(nmfu, src):
             raise ValueError("clause body is not the marker assignment")
         expr = body[0].children[1]
         mk = int(list(expr.find_data("math_num"))[0].children[0].value) if list(expr.find_data("math_num")) else int(expr.children[0].value)
+        tail_of[mk] = tails[-1]
         if has_else:
             else_marker = mk
         if terms:
@@ -177,7 +179,7 @@ def spec_from_source(nmfu, src):
             for cl in blk.children[1:]:
                 clause(cl, pr)
     if len(set(tails)) != 1:
-        raise ValueError("mixed clause body shapes")
+        return CaseSpec(clauses, else_marker, greedy, tail=False, tail_of=tail_of)
     return CaseSpec(clauses, else_marker, greedy, tail=tails[0])
 
 
